@@ -67,9 +67,10 @@ func c11Check(m *ref.TSPacket) error {
 		if x := p.AdaptationField.AdaptationExtensionField; x != nil {
 			x.Length = stale & 0x7f
 		}
+		conv.StrayAF(p.AdaptationField) // and values left in the fields whose flags are off
 		out, n, err = writePacketOf(p)
 		if err != nil || n != 188 || !bytes.Equal(out, enc) {
-			return fmt.Errorf("WritePacket(model with stale derived Length fields %d) = %x (n=%d err=%v)\nreference %x", stale, out, n, err, enc)
+			return fmt.Errorf("WritePacket(model with stale derived Length fields %d and values in the fields whose flags are off) = %x (n=%d err=%v)\nreference %x", stale, out, n, err, enc)
 		}
 	}
 	return nil
@@ -80,7 +81,7 @@ func tsNontrivial(m *ref.TSPacket) bool {
 }
 
 func TestC11Packets(t *testing.T) {
-	rec := obs.NewRecorder("C11", "packets", "rapid-generated conformant packets (any header, adaptation_field_control 01/10/11, empty/flags-only/full adaptation fields with any subset of PCR, OPCR, splice countdown, private data, extension{LTW, piecewise rate, seamless splice}, any stuffing, payload filling the rest; numeric fields biased to 0, all-ones and single-bit values); four oracles per packet: NextPacket(reference bytes)==model, WritePacket(model)==reference bytes, WritePacket(NextPacket(bytes))==bytes, WritePacket(model with stale values in the derived Length fields)==reference bytes; non-trivial = adaptation field with at least one optional part; distinct by packet bytes")
+	rec := obs.NewRecorder("C11", "packets", "rapid-generated conformant packets (any header, adaptation_field_control 01/10/11, empty/flags-only/full adaptation fields with any subset of PCR, OPCR, splice countdown, private data, extension{LTW, piecewise rate, seamless splice}, any stuffing, payload filling the rest; numeric fields biased to 0, all-ones and single-bit values); four oracles per packet: NextPacket(reference bytes)==model, WritePacket(model)==reference bytes, WritePacket(NextPacket(bytes))==bytes, WritePacket(model with stale values in the derived Length fields and values left in the fields whose flags are off)==reference bytes; non-trivial = adaptation field with at least one optional part; distinct by packet bytes")
 	defer rec.Flush()
 	rapid.Check(t, func(t *rapid.T) {
 		m := gen.TSPacket(t, "p")
